@@ -1,6 +1,7 @@
 package checks
 
 import (
+	"encoding/json"
 	"fmt"
 	"sort"
 	"strings"
@@ -310,7 +311,7 @@ func c13NotifyDriver() *engine.HDriver {
 // and delivers the responses as datagrams on the connection, including responses whose
 // processing fails: any response that references the counter re-enables sending.
 func c13DeviceDriver() *engine.HDriver {
-	alpha := []string{"req:1:1", "req:1:2", "req:2:1"}
+	alpha := []string{"req:1:1", "req:1:2", "req:2:1", "reqsync:1:1"}
 	for _, i := range []string{"o0", "o1"} {
 		for _, v := range []string{"reply", "reply-other-function", "reply-to-unknown-local-feature", "reply-from-unknown-remote-feature", "result-ok", "result-error", "result-without-errornumber"} {
 			alpha = append(alpha, "resp:"+i+":"+v)
@@ -325,7 +326,7 @@ func c13DeviceDriver() *engine.HDriver {
 		a := d.w.Peers["A"]
 		f := strings.Split(op, ":")
 		switch f[0] {
-		case "req":
+		case "req", "reqsync":
 			ent, fnI := uint(atoi(f[1])), atoi(f[2])
 			fn := fnLimit
 			if fnI == 2 {
@@ -334,7 +335,23 @@ func c13DeviceDriver() *engine.HDriver {
 			rf := a.Dev.FeatureByAddress(world.FAddr("dA", []uint{ent}, 4))
 			key := f[1] + "/" + f[2]
 			before := a.W.Len()
+			if f[0] == "reqsync" {
+				// the peer answers while the write call of the request is still in progress (loop-back connection)
+				a.W.OnWrite = func(b []byte) {
+					a.W.OnWrite = nil
+					var dg model.Datagram
+					if json.Unmarshal(b, &dg) != nil || dg.Datagram.Header.MsgCounter == nil {
+						return
+					}
+					cmd := model.CmdType{LoadControlLimitListData: limitList(2, 1)}
+					if fnI == 2 {
+						cmd = model.CmdType{LoadControlLimitDescriptionListData: limitDescList(2)}
+					}
+					a.Deliver(a.Datagram(world.FAddr("dA", []uint{ent}, 4), d.lf.Address(), model.CmdClassifierTypeReply, false, dg.Datagram.Header.MsgCounter, cmd))
+				}
+			}
 			ctr, err := d.lf.RequestRemoteData(fn, nil, nil, rf)
+			a.W.OnWrite = nil
 			if err != nil || ctr == nil {
 				return []string{"RequestRemoteData failed"}, "req:error", false
 			}
@@ -352,7 +369,9 @@ func c13DeviceDriver() *engine.HDriver {
 				}
 			case 1:
 				digest, effect = "req:sent", true
-				d.m.out[key] = append(d.m.out[key], k)
+				if f[0] != "reqsync" { // (answered at once: not outstanding)
+					d.m.out[key] = append(d.m.out[key], k)
+				}
 			default:
 				viol = append(viol, "one request wrote several datagrams")
 			}
